@@ -164,6 +164,7 @@ pub trait HashKind {
     const PER_INSTANCE: bool = false;
 }
 impl HashKind for IdBuild {}
+impl HashKind for std::collections::hash_map::RandomState {}
 impl HashKind for NondetBuild {}
 impl HashKind for ConstBuild {}
 impl HashKind for RevBuild {}
@@ -242,4 +243,12 @@ impl<'de> serde::Deserialize<'de> for Pr {
     fn deserialize<D: serde::Deserializer<'de>>(d: D) -> Result<Self, D::Error> {
         Ok(Pr(u8::deserialize(d)?))
     }
+}
+
+/// stub for `std::hash::RandomState::new` under Kani (its real body reads thread-local keys
+/// seeded by a system call): two unconstrained key words
+#[cfg(kani)]
+pub fn stub_random_state() -> std::collections::hash_map::RandomState {
+    let k: (u64, u64) = (kani::any(), kani::any());
+    unsafe { core::mem::transmute::<(u64, u64), std::collections::hash_map::RandomState>(k) }
 }
